@@ -43,7 +43,7 @@ class C40(Prop):
             "the end of the previous call's critical section, before that call executes anything after its Unlock: two first "
             "joiners, joiner vs remover, joiner vs switch; goroutines in WaitForReaders); race (write lock held, 2-6 calls "
             "of every kind incl. WriteUnit of the current / a replaced sub-stream, OutboundBytes, WaitForReaders, Close: all "
-            "wait except Close, nothing changes, then they race on all processors and must all return); rhold (read lock "
+            "wait, nothing changes, then they race on all processors and must all return); rhold (read lock "
             "held: read-lock calls return, a writer waits, readers after it wait behind it). 8 s watchdog. "
             "Non-trivial = every case; distinct = distinct descriptions")
     trusted_base = ["Coq 8.16.1 kernel + VM (vm_compute for cases and for the _refuted witness)",
@@ -79,10 +79,9 @@ class C40(Prop):
                    "requests reach Core.APIConfig* only through the API server (the handler tracker counts them)",
                    "Stream level: callers use a Reader for one AddReader and at most one RemoveReader after it has returned, "
                    "Close() is called once; reader callbacks return (r.stop() waits for the reader's goroutine); what the "
-                   "fan-out delivers is C17's subject, not modelled here; Close() reads rtspStream / rtspsStream WITHOUT "
-                   "Stream.mutex while RTSPStream() writes them under it (RTSP conn goroutine vs path goroutine): part of the "
-                   "data-race half that is not decided; outDescMutex / timeMutex (leaf locks taken under Stream.mutex) are "
-                   "not modelled",
+                   "fan-out delivers is C17's subject, not modelled here; outDescMutex / timeMutex (leaf locks taken under "
+                   "Stream.mutex) are not modelled; a ServerStream created by RTSPStream() after Close() is never closed "
+                   "(lifecycle, not a race): not judged",
                    "not modelled: APIPathsList's loop over paths, the static-source handler's own goroutine, HLS muxers "
                    "calling back into the path manager; the two models are separate (the path manager's shutdown inside "
                    "Core.closeResources is the close() of the first model)"]
